@@ -10,11 +10,9 @@
 From Coq Require Import List Arith NArith Bool Lia.
 From GV Require Import Common.Outcome Base.Grammar Base.GrammarFacts Base.Analyses LR.Automaton
   LR.CloseMirror C02.Model C02.LoopModel C02.LoopSpec C02.LoopProofs C02.LoopEdgeProofs
-  C02.LoopGcProofs.
+  C02.LoopGcProofs C01.PipelineSpec.
 Import ListNotations.
 
-Definition ENoDup (edges : list (list (sym * nat))) : Prop :=
-  Forall (fun es => NoDup (map fst es)) edges.
 
 (* ---- edge_insert keeps the keys distinct ---------------------------------------------- *)
 
@@ -147,10 +145,9 @@ Proof.
     intros es Hes. cbv beta. rewrite map_map. cbn [fst]. exact Hes.
 Qed.
 
-Lemma pager_mirror_edges_nodup g nl fs max_st fuel orders pg :
-  pager_mirror g nl fs max_st fuel orders = Done pg -> ENoDup (pg_edges pg).
+Lemma pager_mirror_edges_nodup : pager_mirror_edges_nodup_stmt.
 Proof.
-  intros H. unfold pager_mirror in H.
+  intros g nl fs max_st fuel orders pg H. unfold pager_mirror in H.
   ostep H as st Eml. ostep H as cl Ecl. ostep H as pg' Egc.
   destruct (max_st <? N.of_nat (length (pg_states pg')))%N; [discriminate H|].
   destruct (max_st <=? N.of_nat (length (pg_states pg')))%N; [discriminate H|].
@@ -162,10 +159,6 @@ Qed.
 
 (* ---- reachability ----------------------------------------------------------------------- *)
 
-Inductive pg_reach (edges : list (list (sym * nat))) : nat -> Prop :=
-| pgr_start : pg_reach edges 0
-| pgr_edge s es X t : pg_reach edges s -> nth_error edges s = Some es -> assoc_sym X es = Some t ->
-    pg_reach edges t.
 
 Lemma pe_assoc_of_in (es : list (sym * nat)) X t : NoDup (map fst es) -> In (X, t) es ->
   assoc_sym X es = Some t.
@@ -276,11 +269,9 @@ Proof.
   apply Hmove. apply pe_seen_reach; [exact HE|]. apply le_memn_in. exact Hm.
 Qed.
 
-Lemma pager_mirror_all_reachable g nl fs max_st fuel orders pg : loop_pre g nl fs ->
-  pager_mirror g nl fs max_st fuel orders = Done pg ->
-  forall j, j < length (pg_states pg) -> pg_reach (pg_edges pg) j.
+Lemma pager_mirror_all_reachable : pager_mirror_all_reachable_stmt.
 Proof.
-  intros Hpre H. unfold pager_mirror in H.
+  intros g nl fs max_st fuel orders pg Hpre H. unfold pager_mirror in H.
   ostep H as st Eml. ostep H as cl Ecl. ostep H as pg' Egc.
   destruct (max_st <? N.of_nat (length (pg_states pg')))%N; [discriminate H|].
   destruct (max_st <=? N.of_nat (length (pg_states pg')))%N; [discriminate H|].
